@@ -399,7 +399,6 @@ REG["numpy.inf"] = T.INF
 REG["math.inf"] = T.INF
 REG["numpy.nan"] = Opaque("nan")     # not a real number: usable as a returned marker only (arithmetic on it is unsupported)
 REG["numpy.newaxis"] = None
-REG["numpy.nan"] = "nan"
 for _t in ("ndarray", "float64", "int64", "float32", "int32", "bool_", "datetime64", "timedelta64", "complex64", "complex128"):
     if "numpy." + _t not in REG:
         REG["numpy." + _t] = TypeTag("numpy." + _t)
